@@ -137,6 +137,16 @@ def judge_value(ctx, case):
             routes['pack-eq'] = ('create', lambda: pack(f'{name}:{n}={sv}'))
         routes['pack-kwlen'] = ('create', lambda: pack(f'{name}:k', pv, k=n))
         routes['Dtype.build'] = ('create', lambda: Dtype(name, n).build(pv))
+        if ok and n > 0:
+            # "every in-range combination succeeds": also right after the same value was assigned to a mutable object that was then changed
+            def after_mutated_target():
+                t = mcls()
+                setattr(t, f'{name}{n}', pv)
+                if len(t):
+                    t.invert()
+                t.append('0b1')
+                return cls(**{name: pv, 'length': n})
+            routes['kw+length-after-mutated-target'] = ('create', after_mutated_target)
         # property assignment without a length in the name: integer and float types take the CURRENT length of the object
         # (so it must be a valid one for the question to be meaningful); text types take their length from the value, so
         # only the digits are judged there
@@ -367,7 +377,7 @@ def zero_length_array(ctx):
 
 
 # ---- Array operations that set several items at once ------------------------------------------------------------
-ARRAY_MULTI_OPS = ['setslice', 'setslice-ext', 'setslice-resize', 'extend', 'extend-gen', 'init', 'insert', 'append', 'setitem']
+ARRAY_MULTI_OPS = ['setslice', 'setslice-ext', 'setslice-resize', 'extend', 'extend-gen', 'init', 'insert', 'append', 'setitem', 'setslice-scaled-array']
 
 
 def gen_array_multi(ctx):
@@ -388,6 +398,16 @@ def gen_array_multi(ctx):
     badpos = rng.choice([None, None, 0, k - 1, k // 2, rng.randrange(k)])
     if badpos is not None:
         vals[badpos] = bad()
+    if op == 'setslice-scaled-array':
+        # the values come as the items of an Array whose dtype has the same name and length and a scale of 4
+        if n > 32 or n < 3:
+            op = 'setslice'
+        else:
+            small = lambda: rng.randint(lo // 4, hi // 4) // 1  # noqa: E731
+            vals = [4 * small() for _ in range(3)]
+            badpos = rng.choice([None, None, 0, 1, 2])
+            if badpos is not None:
+                vals[badpos] = 4 * rng.choice([hi // 4 + 1, hi // 2, lo // 4 - 1 if signed else hi // 4 + 2])
     return {'kind': 'array-multi', 'spec': ('int' if signed else 'uint') + str(n), 'base': base, 'op': op, 'values': vals, 'badpos': badpos,
             'trailing': rng.choice(['', '', '1', '01'][:2 + min(max(n - 1, 0), 2)])}
 
@@ -408,6 +428,10 @@ def judge_array_multi(ctx, case):
             exp = list(base)
             if op == 'setslice':
                 got = call(lambda: a.__setitem__(slice(0, 3), vals))
+                exp[0:3] = vals
+            elif op == 'setslice-scaled-array':
+                other = Array(Dtype(spec.rstrip('0123456789'), int(spec[len(spec.rstrip('0123456789')):]), scale=4), vals)
+                got = call(lambda: a.__setitem__(slice(0, 3), other))
                 exp[0:3] = vals
             elif op == 'setslice-ext':
                 got = call(lambda: a.__setitem__(slice(None, None, 2), vals))
